@@ -6,7 +6,9 @@ Three kinds of decision procedure, none of them tied to a statement shape:
   through `list()/tuple()`, comprehensions and generator expressions without filter, `zip/enumerate/map`, accumulator
   loops (`acc = []; for x in S: ...; acc.append(E)` with exactly one append per iteration - a `continue` *behind* the
   append, the guard clause for the rest of the body, ends an iteration that has appended; a `break`, or a `continue`
-  above the append, can skip - also a hand-written running sum), single assignments, NamedTuple / tuple packing and helper parameters; scalar values along the symbolic paths of
+  above the append, can skip; the append may stand in `with` blocks of the loop body, whose body runs once, and `with V as x`
+  binds V itself where the `__enter__` of V's class is `return self` - also a hand-written running sum; a zip partner
+  `[a, *accumulate(S[:-1])]` / `[a, *S[1:]]` is as long as S, its values go by position, not by element), single assignments, NamedTuple / tuple packing and helper parameters; scalar values along the symbolic paths of
   a function (`sa.rules.c07.Sym`).  `sorted/set/reversed`, directory listings (`glob/iterdir/os.listdir`), slices,
   filters and in-place `.sort()/.reverse()/shuffle` break the image - definitely.  A derivation the engine does not
   know is UNDECIDED, never a violation.
@@ -97,6 +99,7 @@ from .c07 import (VOCAB_CLASSES, LocatePath, Sym, SymState, SymUndecided, _PURE_
 STORE = 'trajectories/store.py'
 ELEM = '__elem__'
 RUNSUM = '__running_sum__'
+BY_POSITION = '__by_position__'        # element of a list as long as its source whose values are not per-element
 REORDERING = {'sorted': 'sorted() re-orders the elements', 'set': 'a set has no order and drops repeats',
               'frozenset': 'a set has no order and drops repeats', 'reversed': 'reversed() inverts the order',
               'random.sample': 'random.sample() re-orders', 'dict.fromkeys': 'drops repeats'}
@@ -121,6 +124,10 @@ class Seq:
 class Broken:
     def __init__(self, why: str, definite: bool):
         self.why, self.definite = why, definite
+
+
+def _by_position(e: ast.expr) -> bool:
+    return isinstance(e, ast.Call) and isinstance(e.func, ast.Name) and e.func.id == BY_POSITION
 
 
 def _elem() -> ast.Name:
@@ -484,7 +491,34 @@ class Prov:
                         if f is not None and 0 <= i < len(f):
                             return list(f.values())[i]
                 return n
+
+            def visit_Call(self, n):
+                self.generic_visit(n)
+                if isinstance(n.func, ast.Attribute) and n.func.attr == '__enter__' and not n.args and not n.keywords \
+                        and prov._enter_is_self(n.func.value):
+                    return n.func.value         # `with V as x`: x is V itself
+                return n
         return T().visit(copy.deepcopy(e))
+
+    def _enter_is_self(self, v: ast.expr) -> bool:
+        """v is an object of a repository class K - `K(...)`, or `O.f(...)` with f a class / static method of the
+        repository class O annotated `-> K` - whose `__enter__` is `return self` and nothing else"""
+        if not (isinstance(v, ast.Call) and isinstance(v.func, (ast.Name, ast.Attribute))):
+            return False
+        k = class_of(self.prog, self.m, v.func)
+        if k is None and isinstance(v.func, ast.Attribute) and isinstance(v.func.value, (ast.Name, ast.Attribute)):
+            owner = class_of(self.prog, self.m, v.func.value)
+            meth = find_member(owner, v.func.attr) if owner is not None else None
+            if meth is not None and any(d.split('.')[-1] in ('classmethod', 'staticmethod') for d in meth.decorators()) \
+                    and meth.node.returns is not None and not isinstance(meth.node, ast.AsyncFunctionDef) \
+                    and not any(isinstance(x, (ast.Yield, ast.YieldFrom)) for x in walk_no_nested(meth.node)):
+                k = _ann_to_class(self.prog, meth.module, meth.node.returns)
+        ent = find_member(k, '__enter__') if k is not None else None
+        if ent is None or ent.decorators() or not ent.params:
+            return False
+        body = [b for b in ent.node.body
+                if not (isinstance(b, ast.Expr) and isinstance(b.value, ast.Constant) and isinstance(b.value.value, str))]
+        return len(body) == 1 and isinstance(body[0], ast.Return) and _is_name(body[0].value, ent.params[0])
 
     def is_named_tuple(self, c: ast.Call) -> bool:
         cls = class_of(self.prog, self.m, c.func)
@@ -617,7 +651,13 @@ class Prov:
                 return s if isinstance(s, Broken) else \
                     Seq(s.src, ast.Tuple(elts=[ast.Name(id='__index__', ctx=ast.Load()), s.elem], ctx=ast.Load()))
             if cn == 'zip' and e.args and not e.keywords:
-                parts = [self.seq(a, depth + 1) for a in e.args]
+                self._in_zip = getattr(self, '_in_zip', 0) + 1
+                try:
+                    parts = [self.seq(a, depth + 1) for a in e.args]
+                finally:
+                    self._in_zip -= 1
+                if not any(isinstance(p, Seq) and not _by_position(p.elem) for p in parts):
+                    parts = [Broken('zip of lists none of which is a plain image of the inputs', False)]
                 bad = next((p for p in parts if isinstance(p, Broken)), None)
                 if bad is not None:
                     return bad
@@ -636,6 +676,22 @@ class Prov:
         opened = self._member_value(e)
         if opened is not None:
             return self.seq(opened, depth + 1)
+        if isinstance(e, ast.List) and getattr(self, '_in_zip', 0) and len(e.elts) == 2 \
+                and sum(isinstance(x, ast.Starred) for x in e.elts) == 1:
+            # `[a, *S[:-1]]`, `[a, *accumulate(S[1:])]`, `[*S[1:], a]`: one element of S dropped, one put in - as long as
+            # the list, but what stands at a position is not a function of the element of S there.  (Only as a partner
+            # in a zip, which a list one longer - empty S - does not lengthen.)
+            r = next(x.value for x in e.elts if isinstance(x, ast.Starred))
+            while isinstance(r, ast.Call) and len(r.args) == 1 and not any(k.arg != 'func' for k in r.keywords) \
+                    and (call_name(r) in TRANSPARENT or call_name(r).split('.')[-1] in ('accumulate', 'cumsum')):
+                r = r.args[0]
+            if isinstance(r, ast.Subscript) and isinstance(r.slice, ast.Slice) and r.slice.step is None \
+                    and norm(r.slice) in (':-1', '1:'):
+                s = self.seq(r.value, depth + 1)
+                if isinstance(s, Broken):
+                    return s
+                return Seq(s.src, ast.Call(func=ast.Name(id=BY_POSITION, ctx=ast.Load()),
+                                           args=[ast.Constant(value=_strip(e)[:80])], keywords=[]))
         if isinstance(e, ast.Subscript) and isinstance(e.slice, ast.Slice):
             sl = e.slice
             if sl.lower is None and sl.upper is None and sl.step is None:
@@ -699,19 +755,28 @@ class Prov:
         if not empty or len(appends) != 1:
             return Broken(f'`{base}` is not a list filled by one append per iteration', False)
         st, arg = appends[0]
-        loop = parent(st)
-        if not isinstance(loop, (ast.For, ast.AsyncFor)) or not any(st is b for b in loop.body):
+        # the append is a body statement of the loop, or of `with` blocks that are: the body of a `with` runs exactly once
+        # where the statement is reached (a manager that swallows exceptions - `suppress` - can leave it half-way)
+        before, behind, at = [], [], st
+        loop = parent(at)
+        while isinstance(loop, (ast.With, ast.AsyncWith)) and any(at is b for b in loop.body) \
+                and not any('suppress' in norm(it.context_expr).split('(')[0] for it in loop.items):
+            k = next(i for i, b in enumerate(loop.body) if b is at)
+            before, behind = loop.body[:k] + before, behind + loop.body[k + 1:]
+            at, loop = loop, parent(loop)
+        if not isinstance(loop, (ast.For, ast.AsyncFor)) or not any(at is b for b in loop.body):
             return Broken(f'the append to `{base}` is conditional', False)
         if any(isinstance(a, (ast.For, ast.AsyncFor, ast.While)) for a in ancestors(loop)) or loop.orelse:
             return Broken(f'the loop filling `{base}` is nested', False)
         # an iteration that is begun must reach the append: a `continue` behind it (guard clause for the rest of the body)
         # ends an iteration that has already appended; a `break` anywhere, or a `continue` above the append, can skip
-        pos = next(i for i, b in enumerate(loop.body) if b is st)
-        early = [x for b in loop.body[:pos] for x in _loop_exits(b)] + \
-                [x for b in loop.body[pos:] for x in _loop_exits(b) if isinstance(x, ast.Break)]
+        pos = next(i for i, b in enumerate(loop.body) if b is at)
+        before, behind = loop.body[:pos] + before, [st] + behind + loop.body[pos + 1:]
+        early = [x for b in before for x in _loop_exits(b)] + \
+                [x for b in behind for x in _loop_exits(b) if isinstance(x, ast.Break)]
         if early:
             return Broken(f'the loop filling `{base}` can skip iterations (break / continue)', False)
-        late_continue = any(True for b in loop.body[pos:] for x in _loop_exits(b))
+        late_continue = any(True for b in behind for x in _loop_exits(b))
         try:
             hits = self.sym(fn, lambda n: n is st).hits
         except SymUndecided as ex:
